@@ -397,7 +397,7 @@ def stepOp (w : NWorld) (toks : List String) : Option (NWorld × String) :=
           let ids := ",".intercalate (s.clientsId.map toString)
           let slots := ",".intercalate (s.clientsSlot.map toString)
           let pub := if s.addresses.isEmpty then "-" else ",".intercalate (s.addresses.map Addr.toText)
-          some (w, s!"ids=[{ids}] n={s.connectedClients} max={s.maxClients} conn={bit (s.isClientConnected id)} addr={showOpt Addr.toText (s.clientAddr id)} ud={showOpt (fun u => toHex (u.take 8)) (s.userData id)} idle={showOpt toString idle} time={s.currentTime} slots=[{slots}] pub={pub}")
+          some (w, s!"ids=[{ids}] n={s.connectedClients} max={s.maxClients} conn={bit (s.isClientConnected id)} addr={showOpt Addr.toText (s.clientAddr id)} ud={showOpt (fun u => toHex u) (s.userData id)} idle={showOpt toString idle} time={s.currentTime} slots=[{slots}] pub={pub}")
         | .err e => nomatch e
         | .panic _ => some (die w)
       | none => bad
